@@ -416,6 +416,16 @@ func (h *hist) stepDML(sess int) {
 	rnd := h.rnd
 	tb := pickS(rnd, "t", "t", "u")
 	t := h.m.tabs[tb]
+	if rnd.Intn(10) == 0 && !h.sess[sess].inTx {
+		// a statement the engine rejects while planning, after it has already resolved the table (unknown
+		// column, wrong value count): it must fail, change nothing, and must not leave this session with a
+		// private copy of the table that later statements keep reading
+		q := pickS(rnd, "SELECT nosuchcol FROM "+tb, "UPDATE "+tb+" SET nosuchcol = 1", "INSERT INTO "+tb+" VALUES (1, 2, 3, 4, 5, 6, 7, 8, 9, 10, 11)",
+			"SELECT * FROM "+tb+" WHERE nosuchcol = 1", "DELETE FROM "+tb+" WHERE nosuchcol = 1")
+		h.expectDML(sess, q, false, -1)
+		h.feat["dml:rejected-in-planning"] = true
+		return
+	}
 	switch p := rnd.Intn(100); {
 	case p < 30: // insert a fresh key
 		h.nextID++
